@@ -315,6 +315,48 @@ def search(ctx):
         except Exception as ex:
             if type(ex).__name__ != "MultisphereFailure":
                 ctx.violation("C09:auto-with-priors-raises:%s" % type(ex).__name__, "cluster described with priors raised %r" % (ex,), info)
+    # special geometries the random clusters never hit: pairs stacked EXACTLY along the optical axis (equal x and y), in either
+    # listing order, alone, with a side sphere, as a chain -- every listing gives the same field, and the stacked geometry is the
+    # limit of the slightly tilted one
+    for j in range(ctx.n(3, 9)):
+        r0 = float(rng.uniform(0.25, 0.4))
+        gap = float(rng.uniform(2.2, 3.5)) * r0
+        x0, y0, z0 = float(rng.uniform(0.5, 1.5)), float(rng.uniform(0.5, 1.5)), float(rng.uniform(5, 8))
+        kind = j % 3
+        if kind == 0:
+            mem = [Sphere(n=1.59, r=r0, center=(x0, y0, z0)), Sphere(n=1.5, r=0.8 * r0, center=(x0, y0, z0 + gap))]
+        elif kind == 1:
+            mem = [Sphere(n=1.59, r=r0, center=(x0, y0, z0)), Sphere(n=1.59, r=r0, center=(x0, y0, z0 + gap)), Sphere(n=1.59, r=r0, center=(x0 + gap, y0 + 0.3, z0 + 0.4))]
+        else:
+            mem = [Sphere(n=1.59, r=r0, center=(x0, y0, z0 + q * gap)) for q in range(3)]
+        detz = detector_points(x=rng.uniform(-1, 3, size=4), y=rng.uniform(-1, 3, size=4), z=0.0)
+        polz = T.rand_pol(rng)
+        methz = j % 2
+        thz = lambda: Multisphere(meth=methz, **TIGHT)
+        infoz = dict(kind="axial-stack", members=[repr(s_) for s_ in mem], pol=list(polz), meth=methz)
+        ctx.tried("axial-stack", (kind, methz, j))
+        try:
+            fields = []
+            for perm in itertools.permutations(range(len(mem))):
+                fields.append((perm, _flat_field(calc_field(detz, Spheres([mem[q] for q in perm], warn=False), illum_polarization=polz, theory=thz(), **OPT))))
+            scalez = float(np.abs(fields[0][1]).max())
+            worst = max(fields[1:], key=lambda pf: float(np.abs(pf[1] - fields[0][1]).max()))
+            devz = float(np.abs(worst[1] - fields[0][1]).max() / scalez)
+            if not (devz <= 1e-3):
+                ctx.violation("C09:order:axial-stack", "spheres stacked exactly along the optical axis: listing them in the order %r changes the multi-sphere field by %.3g" % (worst[0], devz), dict(perm=list(worst[0]), **infoz))
+                continue
+            eps = 1e-6
+            tilted = [Sphere(n=s_.n, r=s_.r, center=(s_.center[0] + eps * (s_.center[2] - z0), s_.center[1], s_.center[2])) for s_ in mem]
+            for perm in (tuple(range(len(mem))), tuple(reversed(range(len(mem))))):
+                ft = _flat_field(calc_field(detz, Spheres([tilted[q] for q in perm], warn=False), illum_polarization=polz, theory=thz(), **OPT))
+                fs = dict(fields)[perm]
+                devt = float(np.abs(ft - fs).max() / scalez)
+                if not (devt <= 1e-4):
+                    ctx.violation("C09:axial-stack:limit", "spheres stacked exactly along the optical axis (listing %r): the field differs by %.3g from that of the same spheres tilted by 1e-6" % (perm, devt), dict(perm=list(perm), **infoz))
+                    break
+        except Exception as ex:
+            if type(ex).__name__ != "MultisphereFailure":
+                ctx.violation("C09:raises:axial-stack:%s" % type(ex).__name__, "axially stacked cluster raised %r" % (ex,), infoz)
     # the refractive index of a UNIFORM sphere may be written per colour (a dictionary over the illumination labels) in a
     # multi-colour calculation: the spheres are still uniform, the rule is the documented one, and naming no theory equals naming it
     for j in range(ctx.n(4, 12)):
